@@ -308,7 +308,7 @@ HAND = [
     "{% if %}a{% endif %}b", "{% nosuch %}x", "{% else %}x", "{% break %}{% continue %}x", "{% for x in %}a{% endfor %}b", "{% if a %}x",
     "{% endif %}", "{{ a | nosuch }}", "{{ a b }}", "{% assign %}", "{% for i in (1..3) %}{% if i > %}x{% endif %}{{ i }}{% endfor %}",
     "{% case %}{% when 1 %}a{% endcase %}", "{% case x %}junk{% when %}a{% endcase %}", "{% unless a %}x{% elsif %}y{% endunless %}",
-    "{% if a %}x{% elsif %}y{% endif %}", "{% include 'nope' %}after", "{% render 'bad' %}after", "{% include 'brk' %}z", "{{ a['b'] c }}",
+    "{% if a %}x{% elsif %}y{% endif %}", "{% include 'nope' %}after", "{% case a %}{% when 1, xs[\"b\"] c %}one{% when 2 %}two{% endcase %}", "{% case a %}{% when 1 2 %}x{% endcase %}", "{% render 'bad' %}after", "{% include 'brk' %}z", "{{ a['b'] c }}",
     "{{ a[1] b }}", "{{ a. }}", "{% for i in xs limit: 1,, offset: 2 %}{{ i }}{% endfor %}", "{{ a | f: 1,, 2 }}", "{% cycle %}", "{% liquid\nif\necho 1\n%}",
 ]
 
